@@ -293,6 +293,13 @@ func gcConfigs(tier string) []Config {
 // gcPreambles are start states that contain superseded record lists, freed
 // primary records and a low-use primary file, so that depth-bounded
 // enumeration starts where the collectors have work.
+// indices of preambles that scenarios pick by name (appending to the list
+// must not silently change what a scenario runs)
+const (
+	preMergeDeleted = 7 // middle record of index file 0 already marked deleted
+	preMiddleDead   = 8 // middle index file fully superseded
+)
+
 func gcPreambles() [][]Op {
 	P := func(k, v int) Op { return Op{Kind: OpPut, K: k, V: v} }
 	F := Op{Kind: OpFlush}
@@ -515,7 +522,7 @@ func c02Scenarios(tier string) []*SeqScenario {
 	for _, c := range cfgs {
 		scs = append(scs, &SeqScenario{Prop: "C02", Name: "c02", Cfg: c, Alphabet: alpha, Depth: depth, Allow: allow,
 			Final: c02Final, Oracles: []string{"map", "diff"}, Nontrivial: nontriv})
-		c02pres := append(append([][]Op{}, gcPreambles()[1:3]...), gcPreambles()[8])
+		c02pres := append(append([][]Op{}, gcPreambles()[1:3]...), gcPreambles()[preMiddleDead])
 		for pi, pre := range c02pres {
 			_ = pi
 			scs = append(scs, &SeqScenario{Prop: "C02", Name: "c02-pre", Cfg: c, Preamble: pre, Alphabet: alpha, Depth: depth - 2, Allow: allow,
@@ -523,7 +530,7 @@ func c02Scenarios(tier string) []*SeqScenario {
 		}
 		if c.IdxFS == 48 {
 			pres := gcPreambles()
-			scs = append(scs, &SeqScenario{Prop: "C02", Name: "c02-merge", Cfg: c, Preamble: pres[len(pres)-1], Alphabet: alpha, Depth: depth - 1, Allow: allow,
+			scs = append(scs, &SeqScenario{Prop: "C02", Name: "c02-merge", Cfg: c, Preamble: pres[preMergeDeleted], Alphabet: alpha, Depth: depth - 1, Allow: allow,
 				Final: c02Final, Oracles: []string{"map", "diff"}, Nontrivial: nontriv})
 		}
 	}
